@@ -239,10 +239,10 @@ func readLog(path string) (started, ended map[int]bool) {
 
 // runLocalRound runs one round; anything it would report is first re-executed
 // alone with doubled waits (machine load), and only what shows up again is kept.
-func runLocalRound(c *Ctx, round int, g c12Cfg, reqs []c12Req) {
+func runLocalRound(c *Ctx, round int, g c12Cfg, reqs []c12Req, ovrs []*c12Ovr) {
 	r := c.Res
 	before := len(r.Violations)
-	runLocalRoundOnce(c, round, g, reqs)
+	runLocalRoundOnce(c, round, g, reqs, ovrs)
 	if len(r.Violations) == before {
 		return
 	}
@@ -250,7 +250,7 @@ func runLocalRound(c *Ctx, round int, g c12Cfg, reqs []c12Req) {
 	r.Violations = r.Violations[:before]
 	saved := c12Wait
 	c12Wait = 2 * saved
-	runLocalRoundOnce(c, round+100000, g, reqs)
+	runLocalRoundOnce(c, round+100000, g, reqs, ovrs)
 	c12Wait = saved
 	r.hist("local_rounds_reexecuted_alone")
 	second := append([]Violation{}, r.Violations[before:]...)
@@ -274,7 +274,47 @@ func runLocalRound(c *Ctx, round int, g c12Cfg, reqs []c12Req) {
 	}
 }
 
-func runLocalRoundOnce(c *Ctx, round int, g c12Cfg, reqs []c12Req) {
+// c12Ovr: a per-stage --overrides entry for the chunk phase (fields present when has[i])
+type c12Ovr struct {
+	has [3]bool // threads, mem_gb, vmem_gb
+	val c12Req
+}
+
+func (o *c12Ovr) apply(q c12Req) c12Req {
+	if o == nil {
+		return q
+	}
+	if o.has[0] {
+		q.T64 = o.val.T64
+	}
+	if o.has[1] {
+		q.MemMb = o.val.MemMb
+	}
+	if o.has[2] {
+		q.VmemMb = o.val.VmemMb
+	}
+	return q
+}
+
+func (o *c12Ovr) json() string {
+	var f []string
+	v := o.val.resources()
+	if o.has[0] {
+		f = append(f, fmt.Sprintf("%q: %s", "chunk.threads", strconv.FormatFloat(v.Threads, 'g', -1, 64)))
+	}
+	if o.has[1] {
+		f = append(f, fmt.Sprintf("%q: %s", "chunk.mem_gb", strconv.FormatFloat(v.MemGB, 'g', -1, 64)))
+	}
+	if o.has[2] {
+		f = append(f, fmt.Sprintf("%q: %s", "chunk.vmem_gb", strconv.FormatFloat(v.VMemGB, 'g', -1, 64)))
+	}
+	return "{" + strings.Join(f, ", ") + "}"
+}
+
+// Every job's request takes the production path: Node.setChunkJobReqs (stage
+// request, --overrides, GetSystemReqs) and then LocalJobManager.Enqueue, as
+// Node.runJob does.
+func runLocalRoundOnce(c *Ctx, round int, g c12Cfg, reqs []c12Req, ovrs []*c12Ovr) {
 	r := c.Res
 	dir := filepath.Join(c.Scratch, fmt.Sprintf("local%d", round))
 	os.MkdirAll(dir, 0o755)
@@ -289,7 +329,14 @@ func runLocalRoundOnce(c *Ctx, round int, g c12Cfg, reqs []c12Req) {
 	}
 	jobs := make([]*c12Job, len(reqs))
 	var nreqs [][]string
-	for _, q := range reqs {
+	ovr := func(i int) *c12Ovr {
+		if i < len(ovrs) {
+			return ovrs[i]
+		}
+		return nil
+	}
+	for i, q := range reqs {
+		q = ovr(i).apply(q)
 		nreqs = append(nreqs, []string{"C12.norm", g.String(), strconv.FormatInt(sems[1].CurrentSize(), 10),
 			strconv.FormatInt(limits[2], 10), fmt.Sprintf("%d,%d,%d", q.centi(), q.MemMb, q.VmemMb)})
 	}
@@ -314,13 +361,139 @@ func runLocalRoundOnce(c *Ctx, round int, g c12Cfg, reqs []c12Req) {
 		}
 		jobs[i] = j
 		res := q.resources()
-		reqDesc = append(reqDesc, fmt.Sprintf("job%d{threads:%g mem_gb:%g vmem_gb:%g => holds %v}", i, res.Threads, res.MemGB, res.VMemGB, j.amts))
+		d := fmt.Sprintf("job%d{threads:%g mem_gb:%g vmem_gb:%g", i, res.Threads, res.MemGB, res.VMemGB)
+		if o := ovr(i); o != nil {
+			d += fmt.Sprintf(" overrides[PIPE.ST%d]=%s", i, o.json())
+		}
+		reqDesc = append(reqDesc, d+fmt.Sprintf(" => holds %v}", j.amts))
 	}
 	input["jobs"] = reqDesc
+	// the --overrides file
+	var ov *core.PipestanceOverrides
+	{
+		var ents []string
+		for i := range reqs {
+			if o := ovr(i); o != nil {
+				ents = append(ents, fmt.Sprintf("%q: %s", fmt.Sprintf("PIPE.ST%d", i), o.json()))
+			}
+		}
+		ovPath := filepath.Join(dir, "overrides.json")
+		content := "{" + strings.Join(ents, ", ") + "}"
+		os.WriteFile(ovPath, []byte(content), 0o644)
+		input["overrides_file"] = content
+		var err error
+		if ov, err = core.ReadOverrides(ovPath); err != nil {
+			r.note("local round %d: overrides file rejected: %v", round, err)
+			return
+		}
+	}
+	// ---- solo phase: every job with an --overrides entry first runs alone, so that what Enqueue
+	// reserves for it can be read off the semaphores exactly (and a wrong — e.g. negative — amount
+	// is found before it can meet other jobs and corrupt the counters)
+	for _, j := range jobs {
+		if ovr(j.id) == nil {
+			continue
+		}
+		sdir := filepath.Join(dir, fmt.Sprintf("solo%d", j.id))
+		smd := core.NewMetadata(fmt.Sprintf("ID.c12.SOLO%d", j.id), sdir)
+		if err := core.VerifMkdirs(smd); err != nil {
+			return
+		}
+		slog := filepath.Join(sdir, "log")
+		script := fmt.Sprintf("echo S %d >> %s; while [ ! -e %s/go ]; do sleep 0.01; done; echo E %d >> %s", j.id, slog, sdir, j.id, slog)
+		jobDef := j.req.resources()
+		fq := fmt.Sprintf("ID.c12.PIPE.ST%d", j.id)
+		res := core.VerifNodeJobReqs(ljm, ljm, ov, fq, true, nil, &jobDef, core.STAGE_TYPE_CHUNK)
+		ljm.Enqueue("/bin/sh", []string{"-c", script}, map[string]string{}, smd, &res, fq, 0, 0, false)
+		refusedExpected := false
+		for k, sm := range sems {
+			if sm != nil && j.amts[k] > limits[k] {
+				refusedExpected = true
+			}
+		}
+		dl := time.Now().Add(c12Wait)
+		started, refused := false, false
+		for !started && !refused && time.Now().Before(dl) {
+			st, _ := readLog(slog)
+			started = st[j.id]
+			_, err := os.Stat(smd.MetadataFilePath(core.Errors))
+			refused = err == nil
+			if !started && !refused {
+				time.Sleep(2 * time.Millisecond)
+			}
+		}
+		var bad string
+		var got [4]int64
+		for k, sm := range sems {
+			if sm != nil {
+				got[k] = sm.Reserved()
+			}
+		}
+		switch {
+		case refused && !refusedExpected:
+			var msg []byte
+			for t := 0; t < 200 && len(msg) == 0; t++ {
+				msg, _ = os.ReadFile(smd.MetadataFilePath(core.Errors))
+				if len(msg) == 0 {
+					time.Sleep(2 * time.Millisecond)
+				}
+			}
+			bad = "C12:local:job-refused|job " + strconv.Itoa(j.id) + " running alone was refused: " + strings.TrimSpace(string(msg))
+		case !started && !refused:
+			bad = "C12:local:stall|job " + strconv.Itoa(j.id) + " running alone neither started nor was refused"
+		case started:
+			for k, sm := range sems {
+				if sm == nil {
+					continue
+				}
+				name := []string{"cores(centi)", "memory(MB)", "vmem(MB)", "processes"}[k]
+				switch {
+				case got[k] < 0:
+					bad = fmt.Sprintf("C12:local:negative-reservation|%s: job %d alone holds a negative reservation %d (model: %d)", name, j.id, got[k], j.amts[k])
+				case got[k] > limits[k]:
+					bad = fmt.Sprintf("C12:local:over-limit|%s: job %d alone holds %d > limit %d", name, j.id, got[k], limits[k])
+				case got[k] != j.amts[k]:
+					bad = fmt.Sprintf("C12:local:amount-mismatch|%s: job %d alone holds %d, the model says %d", name, j.id, got[k], j.amts[k])
+				}
+				if bad != "" {
+					break
+				}
+			}
+		}
+		os.WriteFile(filepath.Join(sdir, "go"), nil, 0o644)
+		dl = time.Now().Add(c12Wait)
+		for time.Now().Before(dl) {
+			busy := false
+			for _, sm := range sems {
+				if sm != nil && (sm.Reserved() != 0 || sm.QueueLength() != 0) {
+					busy = true
+				}
+			}
+			if !busy {
+				break
+			}
+			time.Sleep(2 * time.Millisecond)
+		}
+		r.hist("local_solo_jobs_with_overrides")
+		if bad != "" {
+			kv := strings.SplitN(bad, "|", 2)
+			in2 := map[string]interface{}{}
+			for k2, v2 := range input {
+				in2[k2] = v2
+			}
+			in2["job"] = reqDesc[j.id]
+			in2["resources_handed_to_Enqueue"] = res
+			r.violate(Violation{Kind: "property", Key: kv[0], What: kv[1] + " (request through Node.setChunkJobReqs with --overrides, then LocalJobManager.Enqueue)",
+				Input: in2, Impl: map[string]interface{}{"reserved cores,mem,vmem,procs": got, "limits": limits}})
+			return // do not let it meet other jobs
+		}
+	}
 	for _, j := range jobs {
 		script := fmt.Sprintf("echo S %d >> %s; while [ ! -e %s/go ]; do sleep 0.01; done; echo E %d >> %s", j.id, logPath, j.dir, j.id, logPath)
-		res := j.req.resources()
-		ljm.Enqueue("/bin/sh", []string{"-c", script}, map[string]string{}, j.md, &res, fmt.Sprintf("ID.c12.J%d", j.id), 0, 0, false)
+		jobDef := j.req.resources()
+		fq := fmt.Sprintf("ID.c12.PIPE.ST%d", j.id)
+		res := core.VerifNodeJobReqs(ljm, ljm, ov, fq, true, nil, &jobDef, core.STAGE_TYPE_CHUNK)
+		ljm.Enqueue("/bin/sh", []string{"-c", script}, map[string]string{}, j.md, &res, fq, 0, 0, false)
 	}
 	release := func(j *c12Job) { os.WriteFile(filepath.Join(j.dir, "go"), nil, 0o644) }
 	defer func() {
@@ -602,7 +775,36 @@ func runC12Local(c *Ctx) {
 			}
 			reqs = append(reqs, q)
 		}
-		runLocalRound(c, round, g, reqs)
+		// --overrides entries for about half of the jobs: in range, zero, negative (adaptive), above the limit
+		ovrs := make([]*c12Ovr, len(reqs))
+		for i := range reqs {
+			if c.Rng.Intn(2) == 0 {
+				continue
+			}
+			o := &c12Ovr{}
+			pick := func(unit, max int64) int64 {
+				switch c.Rng.Intn(5) {
+				case 0:
+					return 0
+				case 1:
+					return -unit * (1 + c.Rng.Int63n(2))
+				case 2:
+					return (max + 2) * unit * 4
+				default:
+					return unit * (1 + c.Rng.Int63n(max*4))
+				}
+			}
+			for f := 0; f < 3; f++ {
+				o.has[f] = c.Rng.Intn(3) != 0
+			}
+			o.val = c12Req{T64: pick(16, int64(g.MaxCores)), MemMb: pick(256, int64(g.MaxMemGB)), VmemMb: pick(512, int64(g.MaxMemGB))}
+			if !o.has[0] && !o.has[1] && !o.has[2] {
+				o.has[c.Rng.Intn(2)] = true
+			}
+			ovrs[i] = o
+			r.hist("local_jobs_with_overrides")
+		}
+		runLocalRound(c, round, g, reqs, ovrs)
 		stalled := false
 		for _, v := range r.Violations {
 			if v.Key == "C12:local:stall" || v.Key == "C12:local:job-did-not-end" {
@@ -616,5 +818,5 @@ func runC12Local(c *Ctx) {
 	}
 	// replay of the negative witness Props.C12.vmem_floor_exceeds_limit on the real job manager
 	runLocalRound(c, 1000, c12Cfg{MaxCores: 4, MaxMemGB: 4, MaxVmemMB: 2048, TPJ: 1, MPJ: 1, EV: 0},
-		[]c12Req{{T64: 64, MemMb: 3072, VmemMb: 0}})
+		[]c12Req{{T64: 64, MemMb: 3072, VmemMb: 0}}, nil)
 }
